@@ -135,7 +135,7 @@ class ScopeGen(object):
         r = self.r
         kinds = SCOPES
         if in_math:
-            kinds = ['{', 'begingroup', 'unknownenv']
+            kinds = ['{', 'begingroup', 'unknownenv', 'nestedbox']
         kind = r.choice(kinds)
         self.nscopes += 1
         self.kinds.add(kind)
@@ -150,6 +150,9 @@ class ScopeGen(object):
             # an environment no package defines (plasTeX tolerates it and treats it as a group), in text and in mathematics
             nm = r.choice(['zqunk', 'zqunk', 'zqother'])
             s = '\\begin{%s}' % nm + self.block(depth, in_math) + '\\end{%s}' % nm
+        elif kind == 'nestedbox':
+            # (inside mathematics) a text box that holds another text box and, after it, mathematics of its own
+            s = '\\mbox{\\textbf{}$' + self.definition(True) + '$}'
         elif kind == 'cmdenv':
             # a \\newcommand used in environment form (\\endzqce is not defined: LaTeX takes it for \\relax)
             s = '\\begin{zqce}' + self.block(depth) + '\\end{zqce}'
